@@ -184,6 +184,20 @@ Theorem C12_sort_total : forall split, split_law split -> forall G ks d,
   exists d', sort_df split ks d = Some d'.
 Proof. exact sort_typed_total. Qed.
 
+(* the public calling conventions of sort / orderBy (DataFrame._sort_cols): `ascending` absent or true leaves
+   the keys as given -- a key that carries an explicit ordering keeps it --, false makes every key
+   DESC NULLS LAST, a list does so flag by flag; the resulting key list is what C12_sort_spec* speak about *)
+Theorem C12_sort_calling_convention : forall ks,
+  sort_cols ks AscAbsent = ks /\ sort_cols ks (AscScalar true) = ks /\
+  sort_cols ks (AscScalar false) = map desc_of ks /\
+  (forall bs, length bs = length ks -> forall i k, nth_error ks i = Some k ->
+     exists b, nth_error bs i = Some b /\
+               nth_error (sort_cols ks (AscList bs)) i = Some (if b then k else desc_of k)) /\
+  (forall k, fst (desc_of k) = fst k /\ sql_ascending (snd (desc_of k)) = false /\
+             sql_nulls_first (snd (desc_of k)) = false /\
+             dir_ascending (snd (desc_of k)) = false /\ dir_nulls_smaller (snd (desc_of k)) = true).
+Proof. exact sort_cols_meaning. Qed.
+
 (* what one key's order is: the regenerated sort_order strings and membership lists give every SortOrder
    wrapper its SQL direction and null placement ... *)
 Theorem C12_sort_direction_table : forall d,
@@ -286,9 +300,9 @@ Example ex_sort_filter :
   option_map collect (filter_df (ECol nB) d0) = Some [r2; r3] /\
   option_map collect (filter_df (ENot (ECol nB)) d0) = Some [r0] /\
   view d0 = view d0' /\
-  option_map view (run_ops one d0 [OSort [(ECol nX, DDesc)]; OLimit 2; OUnion [OFilter (ECol nB)]; ODistinct] d0) =
-  option_map view (run_ops two d0' [OSort [(ECol nX, DDesc)]; OLimit 2; OUnion [OFilter (ECol nB)]; ODistinct] d0') /\
-  option_map collect (run_ops one d0 [OSort [(ECol nX, DDesc)]; OLimit 2; OUnion [OFilter (ECol nB)]; ODistinct] d0)
+  option_map view (run_ops one d0 [OSort [(ECol nX, DDesc)] AscAbsent; OLimit 2; OUnion [OFilter (ECol nB)]; ODistinct] d0) =
+  option_map view (run_ops two d0' [OSort [(ECol nX, DDesc)] AscAbsent; OLimit 2; OUnion [OFilter (ECol nB)]; ODistinct] d0') /\
+  option_map collect (run_ops one d0 [OSort [(ECol nX, DDesc)] AscAbsent; OLimit 2; OUnion [OFilter (ECol nB)]; ODistinct] d0)
     = Some [r0; r1; r2; r3].
 Proof.
   split; [repeat constructor|]. split.
@@ -307,3 +321,12 @@ Proof.
   repeat (constructor; [split; [reflexivity | constructor; [vm_compute; try exact I; discriminate | constructor]]|]).
   constructor.
 Qed.
+
+(* orderBy(a.desc_nulls_first(), b.asc_nulls_last(), ascending=[True, False]): the first key keeps its own
+   ordering, the second becomes DESC NULLS LAST *)
+Example ex_sort_flags :
+  sort_cols [(ECol nA, DDescNF); (ECol nB, DAscNL)] (AscList [true; false]) = [(ECol nA, DDescNF); (ECol nB, DDesc)] /\
+  option_map collect (step_simple one (OSort [(ECol nA, DDescNF); (ECol nB, DAscNL)] (AscList [true; false])) d0)
+    = Some [r1; r2; r3; r0] /\
+  option_map collect (step_simple one (OSort [(ECol nA, DAscNL)] (AscScalar false)) d0) = Some [r2; r0; r3; r1].
+Proof. vm_compute. repeat split. Qed.
